@@ -1208,7 +1208,7 @@ func genMut(t *rapid.T, b budget, label string) *Mut {
 // mid-listing and after adding/removing an entry, raw reads.
 func TestPropRaw(t *testing.T) {
 	defer dropBase()
-	hx.Check(t, "raw", hx.N(400, 1500), func(t *rapid.T) {
+	hx.Check(t, "raw", hx.N(220, 1500), func(t *rapid.T) {
 		c := &Case{Kind: "raw"}
 		var b budget
 		c.Ents, b = genDir(t, 90)
@@ -1248,7 +1248,7 @@ func TestPropRaw(t *testing.T) {
 // TestPropClnt: File.Readdir(0) through the go9p client.
 func TestPropClnt(t *testing.T) {
 	defer dropBase()
-	hx.Check(t, "clnt", hx.N(200, 700), func(t *rapid.T) {
+	hx.Check(t, "clnt", hx.N(100, 700), func(t *rapid.T) {
 		c := &Case{Kind: "clnt"}
 		var b budget
 		c.Ents, b = genDir(t, 120)
@@ -1429,7 +1429,7 @@ func TestEnumCounts(t *testing.T) {
 	}
 }
 
-const enumChunk = 24
+const enumChunk = 48
 
 // TestBigDirs (thorough tier): directories of thousands of entries.
 func TestBigDirs(t *testing.T) {
